@@ -102,25 +102,25 @@ func bidType(t string) frtypes.BidType {
 func (e *Env) BuildMsg(a Action) sdk.Msg {
 	switch a.A {
 	case "CreateFixed":
-		return &frtypes.MsgCreateFixedPriceAuction{Auctioneer: e.AddrStr(a.By), StartPrice: e.Dec(a.Price),
+		return &frtypes.MsgCreateFixedPriceAuction{Auctioneer: e.spell(a.By, a.Upper), StartPrice: e.Dec(a.Price),
 			SellingCoin: e.coin(a.SellDenom, a.SellAmt), PayingCoinDenom: GoDenom(a.PayDenom),
 			VestingSchedules: e.sched(a.Sched), StartTime: TickTime(a.Start), EndTime: TickTime(a.End)}
 	case "CreateBatch":
-		return &frtypes.MsgCreateBatchAuction{Auctioneer: e.AddrStr(a.By), StartPrice: e.Dec(a.Price), MinBidPrice: e.Dec(a.MinPrice),
+		return &frtypes.MsgCreateBatchAuction{Auctioneer: e.spell(a.By, a.Upper), StartPrice: e.Dec(a.Price), MinBidPrice: e.Dec(a.MinPrice),
 			SellingCoin: e.coin(a.SellDenom, a.SellAmt), PayingCoinDenom: GoDenom(a.PayDenom),
 			VestingSchedules: e.sched(a.Sched), MaxExtendedRound: uint32(a.MaxExt), ExtendedRoundRate: e.Dec(a.Rate),
 			StartTime: TickTime(a.Start), EndTime: TickTime(a.End)}
 	case "Cancel":
-		return &frtypes.MsgCancelAuction{Auctioneer: e.AddrStr(a.By), AuctionId: uint64(a.ID)}
+		return &frtypes.MsgCancelAuction{Auctioneer: e.spell(a.By, a.Upper), AuctionId: uint64(a.ID)}
 	case "Bid":
-		return &frtypes.MsgPlaceBid{AuctionId: uint64(a.ID), Bidder: e.AddrStr(a.By), BidType: bidType(a.Type),
+		return &frtypes.MsgPlaceBid{AuctionId: uint64(a.ID), Bidder: e.spell(a.By, a.Upper), BidType: bidType(a.Type),
 			Price: e.Dec(a.Price), Coin: e.coin(a.Denom, a.Amt)}
 	case "Modify":
-		return &frtypes.MsgModifyBid{AuctionId: uint64(a.ID), Bidder: e.AddrStr(a.By), BidId: uint64(a.Bid),
+		return &frtypes.MsgModifyBid{AuctionId: uint64(a.ID), Bidder: e.spell(a.By, a.Upper), BidId: uint64(a.Bid),
 			Price: e.Dec(a.Price), Coin: e.coin(a.Denom, a.Amt)}
 	case "MsgAddAllowed":
 		return &frtypes.MsgAddAllowedBidder{AuctionId: uint64(a.ID),
-			AllowedBidder: frtypes.AllowedBidder{AuctionId: uint64(a.ID), Bidder: e.AddrStr(a.By), MaxBidAmount: sdkmath.NewInt(a.Cap)}}
+			AllowedBidder: frtypes.AllowedBidder{AuctionId: uint64(a.ID), Bidder: e.spell(a.By, a.Upper), MaxBidAmount: sdkmath.NewInt(a.Cap)}}
 	case "UpdateParams":
 		auth := e.AddrStr(a.Auth)
 		if a.Auth == "gov" {
@@ -531,7 +531,7 @@ func (e *Env) query0(ctx sdk.Context, a Action) ([]any, PageJ, error) {
 	case "ListBid":
 		bidder := ""
 		if a.Bidder != "" {
-			bidder = e.AddrStr(a.Bidder)
+			bidder = e.spell(a.Bidder, a.Upper)
 		}
 		r, err := qs.ListBid(ctx, &frtypes.QueryAllBidRequest{AuctionId: uint64(a.ID), Bidder: bidder, IsMatched: a.Matched, Pagination: preq})
 		if err != nil {
@@ -560,7 +560,7 @@ func (e *Env) query0(ctx sdk.Context, a Action) ([]any, PageJ, error) {
 			out = append(out, map[string]any{"aid": int64(ab.AuctionId), "u": e.name(ab.Bidder), "cap": ab.MaxBidAmount.Int64()})
 		}
 	case "GetAllowedBidder":
-		r, err := qs.GetAllowedBidder(ctx, &frtypes.QueryGetAllowedBidderRequest{AuctionId: uint64(a.ID), Bidder: e.AddrStr(a.U)})
+		r, err := qs.GetAllowedBidder(ctx, &frtypes.QueryGetAllowedBidderRequest{AuctionId: uint64(a.ID), Bidder: e.spell(a.U, a.Upper)})
 		if err != nil {
 			return out, pg, err
 		}
